@@ -66,25 +66,36 @@ def tmeshJ (m : TMesh) : Json :=
   Json.mkObj [("region", tregJ m.region), ("n", natsJ m.n), ("bc", .str m.bc),
     ("subs", listJ (fun (p : String × TReg) => Json.mkObj [("name", .str p.1), ("region", tregJ p.2)]) m.subs)]
 
-def pairOf (j : Json) : R (Rat × Rat) := do
-  match (← arr j).toList with
-  | [a, b] => pure ((← ratOfJson a), (← ratOfJson b))
-  | _ => throw "pair expected"
+/-- space-separated rationals in one JSON string (keeps the harness's memory small) -/
+def ratsOfStr (j : Json) : R (List Rat) := do
+  let s ← strOfJson j
+  if s.isEmpty then pure [] else (s.splitOn " ").mapM ratOfString
+
+def ratsStrJ (xs : List Rat) : Json := .str (" ".intercalate (xs.map ratToString))
+
+def pairsOfFlat : List Rat → R (List (Rat × Rat))
+  | [] => pure []
+  | a :: b :: t => do pure ((a, b) :: (← pairsOfFlat t))
+  | _ => throw "odd number of entries for a complex buffer"
 
 def darrOf (j : Json) : R DArr := do
   let shape ← nats j "shape"
+  let qs ← ratsOfStr (← fld j "v")
   let buf ← match (← strOfJson (← fld j "k")) with
-    | "i" => pure (DBuf.ints (← intsOf (← fld j "v")))
-    | "f" => pure (DBuf.floats (← listOf ratOfJson (← fld j "v")))
-    | "c" => pure (DBuf.complexes (← listOf pairOf (← fld j "v")))
+    | "i" => pure (DBuf.ints (← qs.mapM intOfRat))
+    | "f" => pure (DBuf.floats qs)
+    | "c" => pure (DBuf.complexes (← pairsOfFlat qs))
     | s => throw s!"bad data kind {s}"
   if buf.length ≠ natProd shape then throw s!"buffer length {buf.length} ≠ prod shape {natProd shape}"
   pure { shape := shape, buf := buf }
 
+/-- values as one string: reals `a b c …`, complex `re im re im …` -/
 def darrJ (a : DArr) : Json :=
   let k := match a.buf.kind with | .int => "i" | .float => "f" | .complex => "c"
-  Json.mkObj [("k", .str k), ("shape", natsJ a.shape),
-    ("v", listJ (fun (p : Rat × Rat) => Json.arr #[ratToJson p.1, ratToJson p.2]) a.buf.vals)]
+  let flat := match a.buf.kind with
+    | .complex => a.buf.vals.flatMap fun p => [p.1, p.2]
+    | _ => a.buf.vals.map fun p => p.1
+  Json.mkObj [("k", .str k), ("shape", natsJ a.shape), ("v", ratsStrJ flat)]
 
 def varrOf (j : Json) : R VArr := do
   let shape ← nats j "shape"
@@ -187,6 +198,14 @@ def c10 (op : String) (j : Json) : Option (R Json) :=
   | "roundtrip" => some do
       let f ← tfldOf (← fld j "field")
       pure (resJ tfldJ (h5Load (h5Save f)))
+  | "spec" => some do
+      -- model-internal equalities, decided here (small answer): the reader on the h5py view vs the reader on the
+      -- model's own store, and vs the spec `loaded f`
+      let f ← tfldOf (← fld j "field")
+      let h ← h5fileOf (← fld j "file")
+      pure (Json.mkObj [("rt_eq_load", .bool (decide (h5Load (h5Save f) = h5Load h))),
+        ("load_eq_loaded", .bool (decide (h5Load h = .ok (loaded f)))),
+        ("store_eq", .bool (decide (h5Save f = h)))])
   | "loaded" => some do
       let f ← tfldOf (← fld j "field")
       pure (Json.mkObj [("ok", tfldJ (loaded f))])
